@@ -1095,6 +1095,14 @@ func (e *Engine) checkModel(ops []*opRec) {
 			name := OpNames[o.K]
 			probe(PrModelChecks)
 			switch s.st {
+			case kAbsent, kExpired, kResident:
+				probe(PrModelDefinite) // the model demands a definite outcome (hit with this value / miss)
+			case kPending, kRefused:
+				probe(PrModelPending) // hit-with-this-value or miss are both allowed
+			default:
+				probe(PrModelUnknown) // the statement gives no guarantee here (only C01/C02/C04 apply)
+			}
+			switch s.st {
 			case kAbsent, kExpired:
 				if hit {
 					e.violate("C06", "absent-hit", fmt.Sprintf("%s(key %d) at #%d hit (value %d) although the key was deleted/cleared/never written", name, o.Key, o.InvSeq, vid(x)), o.RetSeq)
